@@ -137,3 +137,63 @@ Fixpoint has_comm_binary (t : term) {struct t} : bool :=
   | Node l ks =>
       (is_kind "EBinary" l && commutative_op (ld l)) || existsb has_comm_binary ks
   end.
+
+(* ---- hypotheses of the completeness theorem (C09, converse direction), decidable ----
+   [cwf theta a]: the pattern [a] and the substitution [theta] are in the class for which the
+   matcher must find the instance:
+   * theta is sort-respecting and normal on the parameters of [a]: a type (expression)
+     parameter is unbound, bound to the identity, or bound to a type (expression) value that is
+     neither a transparent wrapper at its root nor the parameter itself;
+   * no parameter beneath a qualified self type (`<T as Tr>::A`) is moved by theta -- the
+     exclusion the property states;
+   * [a] contains no transparent wrappers, its lifetimes are leaves, bare fn / binary /
+     method-call nodes have their syn shape, and a non-parameter path does not consist of a
+     parameter-like identifier. *)
+Definition self_bound (theta : subs) (p : string) : bool :=
+  match lookup theta p with None | Some VIdentity => true | _ => false end.
+
+Definition is_none {A} (o : option A) : bool := match o with None => true | Some _ => false end.
+
+Fixpoint cwf (theta : subs) (t : term) {struct t} : bool :=
+  match t with
+  | Node l ks =>
+      match ty_param (Node l ks) with
+      | Some p =>
+          match lookup theta p with
+          | Some (VType v) => negb (is_wrap (tlabel v)) && negb (term_eqb v (mk_ty_param p))
+          | Some (VExpr _) => false
+          | _ => true
+          end
+      | None =>
+      match ex_param (Node l ks) with
+      | Some p =>
+          match lookup theta p with
+          | Some (VExpr v) => negb (is_wrap (tlabel v)) && negb (term_eqb v (mk_ex_param p))
+          | Some (VType _) => false
+          | _ => true
+          end
+      | None =>
+          negb (is_wrap l) && forallb (cwf theta) ks &&
+          (if is_kind "Lifetime" l then is_nil ks
+           else if is_kind "QSelf" l then forallb (self_bound theta) (flat_map params ks)
+           else if is_kind "Path" l then is_none (path_param (Node l ks))
+           else if is_kind "TBareFn" l then
+             match ks with
+             | [lt; abi; ins; out] => abi_ok abi abi && is_kind "List" (tlabel ins)
+             | _ => false
+             end
+           else if is_kind "EBinary" l then Nat.eqb (List.length ks) 2
+           else if is_kind "EMethodCall" l then Nat.leb 2 (List.length ks)
+           else true)
+      end end
+  end.
+
+(* the value the matcher must report for parameter p *)
+Definition value_of (theta : subs) (p : string) : value :=
+  match lookup theta p with
+  | Some (VType v) => VType v
+  | Some (VExpr v) => VExpr v
+  | _ => VIdentity
+  end.
+
+Definition agrees (s theta : subs) : Prop := forall p v, In (p, v) s -> v = value_of theta p.
